@@ -451,6 +451,101 @@ fn judge(c: &Cfg, real: &[DrawObs], mirror: &[MirrorDraw], choices: &[u32], p: &
     ok
 }
 
+// ---------------------------------------------------------------------------------------------
+// C07: the trajectory acceptance statistic that dual averaging is fed with
+// ---------------------------------------------------------------------------------------------
+
+/// For chain histories with and without an injected density fault: the `mean_tree_accept` /
+/// `mean_tree_accept_sym` statistics of every draw equal the mean over the trajectory's leapfrogs
+/// of min(1, exp(-dE)) (symmetric variant 2 min(1,e^-dE) / (1 + e^-dE)), a divergent leapfrog
+/// counting 0 - computed from the energies recorded by the independent mirror chain.
+pub fn acceptance_statistic_partial(tier: Tier) -> Partial {
+    let mut cfgs = vec![];
+    for kind in [KineticEnergyKind::Euclidean, KineticEnergyKind::ExactNormal] {
+        for dim in [1usize, 2] {
+            for maxdepth in [2u64, 3] {
+                let mut faults: Vec<Option<(u64, FaultKind)>> = vec![None];
+                for k in tier.pick(vec![9u64, 10, 12, 14], (8u64..=18).collect()) {
+                    for f in [FaultKind::Recoverable, FaultKind::LogpNan, FaultKind::HugeDrop, FaultKind::GradInf] {
+                        faults.push(Some((k, f)));
+                    }
+                }
+                for fault in faults {
+                    for fixed_step in [None, Some(0.9)] {
+                        cfgs.push(Cfg {
+                            name: format!("diag-{kind:?}-dim{dim}-maxdepth{maxdepth}-fault{}-step{fixed_step:?}", fault.map(|(k, f)| format!("{k}:{}", f.name())).unwrap_or("none".into())),
+                            lowrank: false,
+                            kind,
+                            dim,
+                            maxdepth,
+                            mindepth: 0,
+                            target_time: None,
+                            max_energy_error: 1000.0,
+                            n_draws: 3,
+                            fault,
+                            reject_budget: 1,
+                            fixed_step,
+                        });
+                    }
+                }
+            }
+        }
+    }
+    let total = std::sync::Mutex::new(Partial::new());
+    mc_core::par_for_each(&cfgs, |_, c| {
+        let mut p = Partial::new();
+        let mut stop = false;
+        let _ = explore(Some(c.reject_budget), 50_000, |ctx: &mut Ctx| {
+            if stop {
+                return;
+            }
+            let Ok((real, stream)) = run_real(c, ctx) else { return };
+            let Ok(mirror) = run_mirror(c, &stream) else { return };
+            p.evaluations += 1;
+            for (d, (r, m)) in real.iter().zip(&mirror).enumerate() {
+                let Some(s0) = m.rec.states.get(&0) else { continue };
+                if m.rec.leaps.is_empty() {
+                    continue;
+                }
+                let (mut acc, mut acc_sym, mut n) = (0.0f64, 0.0f64, 0.0f64);
+                let mut any_div = false;
+                for (_from, to) in &m.rec.leaps {
+                    let Some(st) = m.rec.states.get(to) else { continue };
+                    n += 1.0;
+                    if st.diverged {
+                        any_div = true;
+                        continue;
+                    }
+                    let diff = s0.energy - st.energy;
+                    acc += diff.min(0.0).exp();
+                    acc_sym += 2.0 * diff.min(0.0).exp() / (1.0 + diff.exp());
+                }
+                if n == 0.0 {
+                    continue;
+                }
+                let (want, want_sym) = (acc / n, acc_sym / n);
+                p.transitions += 1;
+                for (name, w) in [("mean_tree_accept", want), ("mean_tree_accept_sym", want_sym)] {
+                    let got = f64_of(&r.stats, name);
+                    let ok = matches!(got, Some(g) if (g - w).abs() <= 1e-12 * (1.0 + w.abs()));
+                    if !ok {
+                        p.violation(
+                            format!("C07/trajectory-acceptance-statistic/{}", c.name),
+                            format!("draw {d}: {name} = {got:?}, mean over the {n} leapfrogs of the recorded trajectory = {w} (divergent leapfrog present: {any_div})"),
+                            json!({"config": c.name, "choices": ctx.choices()}),
+                        );
+                        stop = true;
+                        return;
+                    }
+                }
+                p.class(format!("accept-stat:{:?}:div{}", c.kind, any_div));
+            }
+        });
+        total.lock().unwrap().merge(p);
+    });
+    total.into_inner().unwrap()
+}
+
 pub fn run(tier: Tier, _replay: Option<String>) -> i32 {
     let mut report = Report::new(
         "C03",
